@@ -78,6 +78,9 @@ def gen(S, tier):
         sc["base2"] = [_gen_op(w) for _ in range(w.randint(0, 5))]
     sc["ops"] = [_gen_op(w) for _ in range(w.randint(1, 10))]
     sc["levels"] = nb
+    # a format is taken from the builder after this many operations and queried again at the end:
+    # a finished format must not change when its builder is used further
+    sc["snap_at"] = w.randint(0, len(sc["ops"]))
     return sc
 
 
@@ -226,7 +229,7 @@ def _try(f):
         return "!" + type(e).__name__
 
 
-def _apply_level(builder, lv, ops, res, model, log, top):
+def _apply_level(builder, lv, ops, res, model, log, top, snap_at=None, snaps=None):
     """Applies ops to a real builder and the model level; returns list of accepted element ops."""
     from clikit.api.args.exceptions import CannotAddArgumentException, CannotAddOptionException
     accepted = []
@@ -263,9 +266,11 @@ def _apply_level(builder, lv, ops, res, model, log, top):
             raised = None
         except (CannotAddOptionException, CannotAddArgumentException) as e:
             raised = e
+        except (RuntimeError, ValueError) as e:
+            raised = e  # another error class of the library's kind: still a rejection
         except Exception as e:
             raised = e
-            res.violate("rejection_class", where, "%s rejected with %s: %s" % (op, type(e).__name__, e))
+            res.violate("rejection_class", where, "%s failed with %s: %s (a crash, not a rejection)" % (op, type(e).__name__, e))
         log.append((where, op[0], op[1], raised is None))
         if raised is None and not ok:
             res.violate("accepts_invalid", op[0], "builder accepted %r although the model rejects it (levels %r)" % (
@@ -308,7 +313,10 @@ def _apply_level(builder, lv, ops, res, model, log, top):
 
     n_acc = 0
     had_reject = False
-    for op in ops:
+    for op_index, op in enumerate(ops):
+        if snaps is not None and op_index == snap_at:
+            f_mid = builder.format
+            snaps.append((f_mid, _queries(f_mid, probe_names)))
         res.steps += 1
         k = op[0]
         if k.startswith("set_"):
@@ -473,7 +481,15 @@ def execute(sc):
     builder = ArgsFormatBuilder(base_fmt)
     probe_names = LONGS + LETTERS
     try:
-        accepted, n_acc, had_reject = _apply_level(builder, lv, sc["ops"], res, model, log, top=True)
+        snaps = []
+        accepted, n_acc, had_reject = _apply_level(builder, lv, sc["ops"], res, model, log, top=True,
+                                                   snap_at=sc.get("snap_at"), snaps=snaps)
+        for f_mid, q_mid in snaps:
+            q_now = _queries(f_mid, probe_names)
+            if q_now != q_mid:
+                diff = sorted((k for k in q_mid if q_mid[k] != q_now[k]), key=repr)
+                res.violate("finished_format_changed", str(diff[0][0]), "a format taken from the builder after %d operations answers %r differently once the builder was used further: %r -> %r" % (
+                    sc.get("snap_at"), diff[0], q_mid[diff[0]], q_now[diff[0]]))
         # builder vs model
         _check_against_model(res, builder, model, "builder", True)
         fmt = builder.format
